@@ -262,14 +262,14 @@ func (it *Interp) callBuiltin(name string, args []Value) Value {
 			for i := start; i < stop; i += step {
 				elems = append(elems, IntV(i))
 				if i+step < i {
-					abort("size: range() counter overflows int64")
+					break // the counter would overflow: the sequence ends
 				}
 			}
 		} else {
 			for i := start; i > stop; i -= step {
 				elems = append(elems, IntV(i))
 				if i-step > i {
-					abort("size: range() counter overflows int64")
+					break
 				}
 			}
 		}
